@@ -13,6 +13,12 @@ PROP = {'rule': 'rapid-generated cases. takeCPUs: (topology sockets1-2 x numa1-2
          'hint over reusable CPUs that are not core-aligned, or a preemption dry run (victims = live pods, restored CPUs / NUMA amounts '
          'read back through GetAllocatedCPUSet / GetAllocatedNUMAResource as preempt.go does, request at/around what the hinted nodes '
          'have free for this pod) with a victim whose NUMA node list is not {0..k}. '
+         'managerHistoryExt also has reservedCPUsChanged (NRT refresh with a different reserved set, possibly over CPUs that pods hold; from '
+         'then on no reserved CPU may be handed out or reported available). '
+         'heteroNUMA: 2-4 NUMA nodes reporting different resource sets (cpu everywhere; memory, hugepages-1Gi, example.com/nic on arbitrary '
+         'subsets), 1-4 NUMA-only pods allocated+recorded with any hint and requests at/around what the hinted nodes have free; success iff '
+         'enough, exact, inside the hint, per node bounded; non-trivial = heterogeneous sets and a hint naming only NUMA nodes that lack a '
+         'requested NUMA-managed resource. '
          'pluginHistory: rapid state machine over the REAL Plugin (one instance from the package\'s newPluginTestSuit, fresh '
          'resourceManager / TopologyOptionsManager per case) and the real podEventHandler: schedule (PreFilter, RestoreReservation with '
          'any matched/unmatched split of the live reservations, Filter incl. NUMA topology manager admit, nominate, Reserve; LSR cpuset '
@@ -35,6 +41,7 @@ PROP = {'rule': 'rapid-generated cases. takeCPUs: (topology sockets1-2 x numa1-2
                  'the model only once it was recorded; a recorded pod stays live across an NRT delete/re-create and leaves the model when '
                  'Release is called, whether or not a topology is known at that moment (pod delete events / Unreserve are not guarded)',
                  'the topology reported again after a delete is the same one (same MaxRefCount, reserved CPUs, NUMA resources)',
+                 'a resource is NUMA-managed on a node when at least one of its NUMA nodes reports it; a NUMA node not reporting it has none',
                  'plugin unit: sharing limit 1, no node-reserved CPUs, NUMA policy from the NRT (fixed per case); reservations are NUMA-only '
                  'and allocate-once (consumed and removed in the same step in which a pod is allocated with them); while pods exist whose '
                  'events were all dropped (no topology), or no topology is known, only informer events are generated, no scheduling cycles; '
@@ -48,11 +55,12 @@ PROP = {'rule': 'rapid-generated cases. takeCPUs: (topology sockets1-2 x numa1-2
                  'one cpu of NUMA amount per handed-back CPU on the NUMA nodes that pod was charged on'],
  'units': [{'name': 'numa',
             'pkg': 'pkg/scheduler/plugins/nodenumaresource',
-            'files': ['C06/c06_test.go', 'C06/c06_concurrent_test.go', 'C06/c06_plugin_test.go'],
+            'files': ['C06/c06_test.go', 'C06/c06_concurrent_test.go', 'C06/c06_plugin_test.go', 'C06/c06_hetero_test.go'],
             'tests': [{'run': 'TestVerifC06TakeCPUs', 'quick': 20000, 'thorough': 150000},
                       {'run': 'TestVerifC06NUMASplit', 'quick': 20000, 'thorough': 200000},
                       {'run': 'TestVerifC06ManagerHistory', 'quick': 3000, 'thorough': 25000, 'steps': 25},
                       {'run': 'TestVerifC06ManagerHistoryExt', 'quick': 3000, 'thorough': 25000, 'steps': 25},
+                      {'run': 'TestVerifC06HeteroNUMA', 'quick': 6000, 'thorough': 50000},
                       {'run': 'TestVerifC06PluginHistory', 'quick': 2500, 'thorough': 8000, 'steps': 20},
                       {'run': 'TestVerifC06ConcurrentFirstTouch', 'quick': 150, 'thorough': 300, 'shards': 2, 'shrinktime': '0s'},
                       {'run': 'FuzzVerifC06NUMASplit', 'fuzz': True, 'rapid': False, 'thorough_only': True, 'fuzztime': '40s'},
